@@ -16,7 +16,9 @@ Definition isett := (list ivalt * ivalt)%type.                (* validators, pro
 
 Inductive sop :=
 | SBlock (ups : list (N * Z))          (* validator updates of the block: (address index, power) *)
-| SPrune (from to : Z).
+| SPrune (from to : Z)
+| SAdvance (n : N).                    (* n consecutive blocks without validator updates; its
+                                          result class is 0 iff every one of them was accepted *)
 
 Inductive case :=
 (* UpdateWithChangeSet on a reachable set: set before, batch, result class of the call in the
@@ -40,6 +42,12 @@ Inductive case :=
    end, LoadValidators(h) for h from lo upwards: (h, class 0 ok / 1 ErrNoValSetForHeight /
    2 other error / 9 panic, set) *)
 | CStore (addrs : list string) (initial : Z) (genesis : list (N * Z)) (ops : list sop)
+         (res_i : list N) (recorded_i : list (Z * isett)) (loads_i : list (Z * N * option isett))
+(* the same for a long history (runs of hundreds of empty blocks, SAdvance), of which the case
+   carries a sample of the heights: recorded_i = the sets of the sampled heights (around every
+   op and checkpoint, at distances around 128..512 from them, the far end, random ones),
+   loads_i = LoadValidators for the same heights (and the unknown ones at either end) *)
+| CStoreSampled (addrs : list string) (initial : Z) (genesis : list (N * Z)) (ops : list sop)
          (res_i : list N) (recorded_i : list (Z * isett)) (loads_i : list (Z * N * option isett)).
 
 Definition mism (b : bool) (code : N) : verdict := if b then V_ok else V_mismatch code.
@@ -114,6 +122,30 @@ Definition update_prios_ok (v0 cs aft : list validator) : bool :=
                            | Some a => v_prio a =? v_prio w | None => false end) want
   end.
 
+(* Clause 10: the same for ANY accepted batch, newcomers included.  A validator that is not yet
+   a member enters with priority -(P + P/8) ("A(V) = -1.125 * P", P = the total voting power of
+   the set including V: after the batch's additions and power changes, before its removals, as
+   computeNewPriorities takes it); members keep their priority; then the scale-and-centre step
+   over the set that remains, in plain integers — no clipping, no 64-bit sum. *)
+Definition update_prios_all_ok (v0 cs aft : list validator) : bool :=
+  let kept := flat_map (fun v => match expected_power v0 cs (v_addr v) with
+                                 | Some p => [mkVal (v_addr v) p (v_prio v)] | None => [] end) v0 in
+  let changed_total :=
+    fold_right (fun v s => (match find_addr (v_addr v) cs with
+                            | Some c => if v_power c =? 0 then v_power v else v_power c
+                            | None => v_power v end) + s) 0 v0 in
+  let newcomers := filter (fun c => match find_addr (v_addr c) v0 with
+                                    | Some _ => false | None => 0 <? v_power c end) cs in
+  let Pb := changed_total + fold_right (fun c s => v_power c + s) 0 newcomers in
+  let joined := kept ++ map (fun c => mkVal (v_addr c) (v_power c) (- (Pb + Pb / 8))) newcomers in
+  match joined with
+  | [] => true
+  | _ => let want := spec_scale_centre (fold_right (fun v s => v_power v + s) 0 joined) joined in
+         Nat.eqb (List.length want) (List.length aft)
+         && forallb (fun w => match find_addr (v_addr w) aft with
+                              | Some a => v_prio a =? v_prio w | None => false end) want
+  end.
+
 Definition within (b : Z) (l : list validator) : bool :=
   forallb (fun v => (- b <=? v_prio v) && (v_prio v <=? b)) l.
 
@@ -180,10 +212,22 @@ Definition mk_iset (tbl : list string) (s : isett) : valset :=
 Definition vs_eqb (a b : valset) : bool :=
   vals_eqb (vs_vals a) (vs_vals b) && oval_eqb (vs_prop a) (vs_prop b).
 
-Definition mk_op (tbl : list string) (o : sop) : op :=
+Definition mk_op (tbl : list string) (o : sop) : list op :=
   match o with
-  | SBlock ups => OBlock (map (fun '(i, p) => mkVal (addr_at tbl i) p 0) ups)
-  | SPrune f t => OPrune f t
+  | SBlock ups => [OBlock (map (fun '(i, p) => mkVal (addr_at tbl i) p 0) ups)]
+  | SPrune f t => [OPrune f t]
+  | SAdvance n => repeat (OBlock []) (N.to_nat n)
+  end.
+(* the per-op result classes, one per model op *)
+Fixpoint expand_res (ops : list sop) (res : list N) : option (list N) :=
+  match ops, res with
+  | [], [] => Some []
+  | o :: ops', r :: res' =>
+    match expand_res ops' res' with
+    | None => None
+    | Some l => Some (match o with SAdvance n => repeat r (N.to_nat n) | _ => [r] end ++ l)
+    end
+  | _, _ => None
   end.
 
 Definition KK := valset_checkpoint_interval.
@@ -224,6 +268,47 @@ Fixpoint assoc {A} (h : Z) (l : list (Z * A)) : option A :=
 Definition lv_class (r : lv_res) : N :=
   match r with LvOk _ => 0 | LvNoValSet => 1 | LvErr => 2 | LvPanic => 9 end%N.
 
+(* store cases; [sampled]: recorded_i need not list every height the model knows *)
+Definition check_store (sampled : bool) (tbl : list string) (initial : Z) (genesis : list (N * Z))
+           (ops : list sop) (res_i : list N) (recorded_i : list (Z * isett))
+           (loads_i : list (Z * N * option isett)) : verdict :=
+    let gen := map (fun '(i, p) => mkVal (addr_at tbl i) p 0) genesis in
+    let base := base_of initial ops res_i in
+    let rec_sets := map (fun '(h, s) => (h, mk_iset tbl s)) recorded_i in
+
+    (* the clause itself, on the implementation's answers: every retained height returns the
+       set that was in force there *)
+    let lookup_ok :=
+      forallb (fun '(h, s) =>
+                 (h <? base) ||
+                 match assoc h (map (fun '(h', c, s') => (h', (c, s'))) loads_i) with
+                 | Some (c, Some s') => (c =? 0)%N && vs_eqb (mk_iset tbl s') s
+                 | _ => false
+                 end) rec_sets in
+    match start KK gen initial with
+    | None => V_mismatch 30
+    | Some n0 =>
+      let '(nf, res_m) := model_run n0 (flat_map (mk_op tbl) ops) in
+      first_of [
+        viol lookup_ok 8;
+        mism (match expand_res ops res_i with
+              | Some res_x => list_eqb N.eqb res_m res_x
+              | None => false end) 31;
+        mism ((sampled || Nat.eqb (List.length (n_sets nf)) (List.length rec_sets))
+              && forallb (fun '(h, s) => match assoc h (n_sets nf) with
+                                         | Some s' => vs_eqb s s' | None => false end) rec_sets) 32;
+        mism (forallb (fun '(h, c, s) =>
+                         let r := load_validators KK (n_db nf) h in
+                         (* heights below the retained range may or may not survive a prune;
+                            compare them too: the model deletes what the code deletes *)
+                         (lv_class r =? c)%N &&
+                         match r, s with
+                         | LvOk vs, Some s' => vs_eqb vs (mk_iset tbl s')
+                         | LvOk _, None => false
+                         | _, _ => true
+                         end) loads_i) 33 ]
+    end.
+
 Definition check (c : case) : verdict :=
   match c with
   | CUpdate vs0 cs res_i after_i perms =>
@@ -239,6 +324,7 @@ Definition check (c : case) : verdict :=
       viol (negb ok || map_ok v0 ch aft) 4;
       viol (negb ok || match cs with [] => true | _ => within (2 * plain_total aft + 1) aft end) 7;
       viol (negb ok || match cs with [] => true | _ => update_prios_ok v0 ch aft end) 9;
+      viol (negb ok || match cs with [] => true | _ => update_prios_all_ok v0 ch aft end) 10;
       mism (res_class r =? res_i)%N 21;
       mism (match r with Ok vs' => vals_eqb (vs_vals vs') aft | Err _ => true end) 22 ]
   | CNew valz res_i after_i prop_i perms =>
@@ -286,38 +372,7 @@ Definition check (c : case) : verdict :=
                              | None => false end
             end) 26 ]
   | CStore tbl initial genesis ops res_i recorded_i loads_i =>
-    let gen := map (fun '(i, p) => mkVal (addr_at tbl i) p 0) genesis in
-    let base := base_of initial ops res_i in
-    let rec_sets := map (fun '(h, s) => (h, mk_iset tbl s)) recorded_i in
-
-    (* the clause itself, on the implementation's answers: every retained height returns the
-       set that was in force there *)
-    let lookup_ok :=
-      forallb (fun '(h, s) =>
-                 (h <? base) ||
-                 match assoc h (map (fun '(h', c, s') => (h', (c, s'))) loads_i) with
-                 | Some (c, Some s') => (c =? 0)%N && vs_eqb (mk_iset tbl s') s
-                 | _ => false
-                 end) rec_sets in
-    match start KK gen initial with
-    | None => V_mismatch 30
-    | Some n0 =>
-      let '(nf, res_m) := model_run n0 (map (mk_op tbl) ops) in
-      first_of [
-        viol lookup_ok 8;
-        mism (list_eqb N.eqb res_m res_i) 31;
-        mism (Nat.eqb (List.length (n_sets nf)) (List.length rec_sets)
-              && forallb (fun '(h, s) => match assoc h (n_sets nf) with
-                                         | Some s' => vs_eqb s s' | None => false end) rec_sets) 32;
-        mism (forallb (fun '(h, c, s) =>
-                         let r := load_validators KK (n_db nf) h in
-                         (* heights below the retained range may or may not survive a prune;
-                            compare them too: the model deletes what the code deletes *)
-                         (lv_class r =? c)%N &&
-                         match r, s with
-                         | LvOk vs, Some s' => vs_eqb vs (mk_iset tbl s')
-                         | LvOk _, None => false
-                         | _, _ => true
-                         end) loads_i) 33 ]
-    end
+    check_store false tbl initial genesis ops res_i recorded_i loads_i
+  | CStoreSampled tbl initial genesis ops res_i recorded_i loads_i =>
+    check_store true tbl initial genesis ops res_i recorded_i loads_i
   end.
